@@ -36,13 +36,13 @@ CHECKS = {
 NOT_APPLICABLE = {
  'C01': 'sink resolvers (priority-flood with std::priority_queue, MST resolver with basin graph) have heap shape and control flow that depend on the symbolic elevations; the IR->C->cbmc encoding of the STL/xtensor code explodes already for the DFS/BFS sub-steps at N=3 (5M variables, >10 min); no verdict reachable, see DESIGN.md 5',
  'C02': 'same units as C01 (pflood / MST resolvers): no encoding within reach, see DESIGN.md 5',
- 'C06': 'compute_dfs/bfs from a symbolic receiver table: harness and unit exist (harness/c06.c) but the smallest bound N=3 needs >10 min and fails an unwinding assertion that could not be triaged in time; not claimed, see DESIGN.md 5',
- 'C07': 'not built in this round: the accessors return dynamically sized containers whose size depends on the symbolic node index; only the fixed-size impl layer would be encodable, see DESIGN.md 5',
+ 'C06': 'unit units/graph.cpp + harness/c06.c built (symbolic receiver forest/DAG with rank witness): N=3 needs 5 M variables; with loop bound N+2 an unwinding assertion fails spuriously (cbmc loop counters), with bound 10 no verdict in 40 min; not claimed',
+ 'C07': 'unit units/raster_nb.cpp + harness/c07.c built on the fixed-size accessor layer with a symbolic node index: symbolic execution 59 s, then cbmc is killed at 31-62 GB while converting the formula (symbolic index into the per-code offset vectors); no verdict reachable',
  'C09': 'needs two complete update_routes histories with sink resolvers on one object; the composed unit is out of reach of the encoder (see C01), see DESIGN.md 5',
  'C10': 'interleavings: cbmc threads over the translated pool/xtensor code are out of reach; only the sequentialised apply_par path is checked (inside C04); not claimed as C10',
- 'C14': 'floating-point linear algebra (tridiagonal solves): not encodable within reach, as anticipated in the design; no check',
+ 'C14': 'unit units/adi.cpp and an order-exact reference harness/c14.c were built; cbmc\'s SMT back end aborts (flatten2bv of a non-constant FPA-encoded float: xtensor copies doubles byte-wise through untyped pointers) and SAT cannot prove bit-for-bit floating-point equalities (DESIGN.md 3.2); no verdict reachable',
  'C15': 'basin graph / Kruskal / Boruvka sort and union symbolic weights: data-dependent std::sort and vectors; out of reach of the encoder (see C01)',
  'C18': 'trimesh construction hashes symbolic vertex pairs into std::unordered_map; heap shape depends on symbolic data; out of reach',
- 'C19': 'compute_basins / pits from a symbolic state: harness exists (harness/c19.c) but N=3 gives no verdict in 150 s (conditional push_back and unordered_set lookups with symbolic keys); not claimed',
+ 'C19': 'unit + harness/c19.c built (symbolic single-direction state and mask): N=3 gives no verdict in 150 s (conditional push_back, unordered_set look-ups with symbolic keys); not claimed',
  'C20': 'operator sequences dispatch virtually over std::vector<std::shared_ptr<...>> and build std::string keys; beyond the translator/stub set in this round',
 }
